@@ -52,12 +52,15 @@ def _violation(rows, r, driver):
     evs = conf.case_events(rows, r["line"])
     last = evs[-1]
     live = _live(evs[-2]) if len(evs) > 1 else []
+    ac = {k: v for k, v in (evs[0]["st"].get("acfg") or {}).items() if v}
     what = r["invariant"] if r["kind"] == "violation" else "step"
-    key = "C14/%s/%s/%s=>%s | in progress: %s" % (driver, what, _req(last), last["res"].get("result"), "; ".join(live))
+    key = "C14/%s/%s/%s=>%s | in progress: %s%s" % (driver, what, _req(last), last["res"].get("result"), "; ".join(live),
+                                                    " | aliases: %s" % json.dumps(ac, sort_keys=True) if ac else "")
     desc = ("real %s: request %s with in-progress changes [%s] returned %r (change list after: %s)%s"
             % (driver, _req(last), "; ".join(live), last["res"].get("result"),
                json.dumps(last["st"]["changes"], separators=(",", ":")),
-               " -- violates %s" % r["invariant"] if r["kind"] == "violation" else " -- not a step of Conflicts"))
+               (" -- violates %s" % r["invariant"] if r["kind"] == "violation" else " -- not a step of Conflicts")
+               + (" [automatic-alias situation: %s]" % json.dumps(ac, sort_keys=True) if ac else "")))
     return Violation(key=key, desc=desc, replay={"driver": driver, "history": [_req(e) for e in evs],
                                                  "last_event": last, "classification": r})
 
@@ -146,6 +149,7 @@ def run(ctx):
         for k in ("traces", "requests", "accepted", "conflicts", "distinct_classes"):
             totals[k] += st[k]
         totals["pairs"] += st.get("pairs", 0)
+        totals["alias_histories"] = totals.get("alias_histories", 0) + st.get("alias_histories", 0)
         totals["events"] += len(rows)
         bad = [r for r in rows if r["ev"] == "Request" and r["res"]["result"] not in ("accepted", "conflict")]
         created = [r for r in bad if r["res"]["result"] == "conflict-but-created-change"]
@@ -206,6 +210,7 @@ def run(ctx):
             "action_coverage": tlc.coverage_summary(mc), "invariants": INVS,
             "traces_validated_against_impl": totals["traces"],
             "systematic_request_pairs": totals["pairs"],
+            "histories_with_automatic_alias_changes": totals.get("alias_histories", 0),
             "real_requests": totals["requests"], "real_accepted": totals["accepted"], "real_conflicts": totals["conflicts"],
             "real_events": totals["events"],
             "distinct_real_request_classes": totals["distinct_classes"],
